@@ -143,10 +143,23 @@ func (x *c05Exec) put(id []byte, n int, check bool, ev string) bool {
 		// alternative reading: the distance itself read little-endian (what inRadius does)
 		x.v6("refused-only-at-or-beyond-radius", site(!rev(dist).Lt(radiusBefore), "ContentStorage.Put"), fmt.Sprintf("%s: refused for insufficient radius although distance %s < radius %s", ev, dist.Hex(), radiusBefore.Hex()))
 	}
+	// one report per reading: the first item beyond the radius as stated but within it when read
+	// byte-reversed (the recorded finding), and the first item beyond it under both readings
+	var onlyStated, both *uint256.Int
 	for _, it := range after {
-		if beUint(it.K).Gt(radiusAfter) { // "within" includes the boundary
-			x.v6("retained-within-advertised-radius", site(!beUint(it.K).Gt(rev(radiusAfter)), "ContentStorage"), fmt.Sprintf("after %s a retained item lies at distance %s, advertised radius is %s", ev, beUint(it.K).Hex(), radiusAfter.Hex()))
-			break
+		if d := beUint(it.K); d.Gt(radiusAfter) { // "within" includes the boundary
+			if d.Gt(rev(radiusAfter)) {
+				if both == nil {
+					both = d
+				}
+			} else if onlyStated == nil {
+				onlyStated = d
+			}
+		}
+	}
+	for _, d := range []*uint256.Int{onlyStated, both} {
+		if d != nil {
+			x.v6("retained-within-advertised-radius", site(d == onlyStated, "ContentStorage"), fmt.Sprintf("after %s a retained item lies at distance %s, advertised radius is %s", ev, d.Hex(), radiusAfter.Hex()))
 		}
 	}
 	// under the byte-reversed reading alone (not the statement, but it keeps the check
